@@ -302,37 +302,110 @@ Definition run_vec_ext (t : list tok) (inputs : list value) (constants : option 
   | VOk _ calls => Some (map (fun c => run_external t (c_args c) (c_kw c) (c_meta c) rs) calls)
   end.
 
-(** ** echo + np.fromstring (runtime behaviour, sampled only): what a command "echo w1 w2 ..." with
-    decimal words prints and parses to *)
+(** ** the default stdout handler [stdout_to_array] = [np.fromstring(stdout, dtype=dtype, sep=sep)] in text mode, as far as the
+    property speaks about it: the standard output is split on the separator and every field is converted to the requested
+    element type.  numpy's reading of [sep]: white space in the separator matches zero or more white space characters of the
+    text, white space around a field is skipped.  So a separator made of white space only ([" "], tab, ...) splits on runs of
+    white space, and any other separator splits on its non-white core (exact substring) with the fields trimmed.
+    Outside the model (never generated): an empty field / trailing separator / empty output (numpy returns a filler element
+    instead of raising), separators whose characters can be part of a number, white space inside the core of a separator,
+    values outside the range of an integer dtype (C cast wraps), non-native byte orders. *)
 
-Definition is_space (a : ascii) : bool := Ascii.eqb a " "%char.
+Definition text := list ascii.
+Definition chars (s : string) : text := list_ascii_of_string s.
 
-Fixpoint words_aux (s : string) (cur : string) : list string :=
-  match s with
-  | EmptyString => match cur with EmptyString => [] | _ => [cur] end
-  | String a r =>
-      if is_space a then
-        match cur with EmptyString => words_aux r EmptyString | _ => cur :: words_aux r EmptyString end
-      else words_aux r (String.append cur (String a EmptyString))
+(** C [isspace]: space, \t \n \v \f \r *)
+Definition is_ws (a : ascii) : bool :=
+  let n := nat_of_ascii a in (n =? 32) || ((9 <=? n) && (n <=? 13)).
+
+Fixpoint drop_ws (t : text) : text :=
+  match t with
+  | a :: r => if is_ws a then drop_ws r else t
+  | [] => []
   end.
 
-Definition words (s : string) : list string := words_aux s EmptyString.
+Definition trim (t : text) : text := rev (drop_ws (rev (drop_ws t))).
 
-Definition digit_of (a : ascii) : option Z :=
-  let n := nat_of_ascii a in
-  if (48 <=? n) && (n <=? 57) then Some (Z.of_nat (n - 48)) else None.
-
-Fixpoint parse_nat_aux (s : string) (acc : Z) : option Z :=
-  match s with
-  | EmptyString => Some acc
-  | String a r => match digit_of a with Some d => parse_nat_aux r (acc * 10 + d)%Z | None => None end
+Fixpoint is_prefix (p t : text) : bool :=
+  match p, t with
+  | [], _ => true
+  | a :: p', b :: t' => Ascii.eqb a b && is_prefix p' t'
+  | _ :: _, [] => false
   end.
 
-Definition parse_int (s : string) : option Z :=
-  match s with
-  | EmptyString => None
-  | String "-"%char r => match r with EmptyString => None | _ => option_map Z.opp (parse_nat_aux r 0%Z) end
-  | _ => parse_nat_aux s 0%Z
+(** split [t] at every (leftmost, non-overlapping) occurrence of the non-empty [core]; [cur] = the field being read,
+    [skip] = characters of a matched separator still to be dropped *)
+Fixpoint split_on (core t cur : text) (skip : nat) : list text :=
+  match t with
+  | [] => [cur]
+  | a :: r =>
+      match skip with
+      | S k => split_on core r cur k
+      | O => if is_prefix core t then cur :: split_on core r [] (List.length core - 1)
+             else split_on core r (cur ++ [a]) 0
+      end
+  end.
+
+(** split on runs of white space (no empty fields) *)
+Fixpoint ws_fields (t cur : text) : list text :=
+  match t with
+  | [] => match cur with [] => [] | _ => [cur] end
+  | a :: r =>
+      if is_ws a then match cur with [] => ws_fields r [] | _ => cur :: ws_fields r [] end
+      else ws_fields r (cur ++ [a])
+  end.
+
+(** the fields of the standard output [out] for the separator [sep]: no element type is involved *)
+Definition fields (sep out : string) : list text :=
+  match trim (chars sep) with
+  | [] => ws_fields (chars out) []
+  | core => map trim (split_on core (chars out) [] 0)
+  end.
+
+(** [sep.join(fields)] *)
+Fixpoint join (sep : text) (fs : list text) : text :=
+  match fs with
+  | [] => []
+  | [f] => f
+  | f :: r => f ++ sep ++ join sep r
+  end.
+
+(** element types: what a field may look like and what it becomes.  Values are exact rationals n/d. *)
+Inductive ekind := KInt | KUInt | KFloat.
+Definition num := (Z * positive)%type.
+
+Definition str (t : text) : string := string_of_list_ascii t.
+
+(** a decimal integer literal with optional minus sign (leading zeros allowed) *)
+Definition conv_int (f : text) : option Z := option_map Z.of_int (NilZero.int_of_string (str f)).
+
+(** [-]digits.digits *)
+Definition conv_decimal (f : text) : option num :=
+  let neg := match f with a :: _ => Ascii.eqb a "-"%char | [] => false end in
+  let body := if neg then tl f else f in
+  match split_on ["."%char] body [] 0 with
+  | [ip; fp] =>
+      match NilZero.uint_of_string (str ip), NilZero.uint_of_string (str fp) with
+      | Some ui, Some uf =>
+          let d := Z.pow 10 (Z.of_nat (List.length fp)) in
+          let n := (Z.of_uint ui * d + Z.of_uint uf)%Z in
+          Some (if neg then Z.opp n else n, Z.to_pos d)
+      | _, _ => None
+      end
+  | _ => None
+  end.
+
+Definition conv (k : ekind) (f : text) : option num :=
+  match k with
+  | KInt => option_map (fun z => (z, 1%positive)) (conv_int f)
+  | KUInt => match conv_int f with
+             | Some z => if (0 <=? z)%Z then Some (z, 1%positive) else None
+             | None => None
+             end
+  | KFloat => match conv_int f with
+              | Some z => Some (z, 1%positive)
+              | None => conv_decimal f
+              end
   end.
 
 Fixpoint all_some {A} (l : list (option A)) : option (list A) :=
@@ -342,10 +415,52 @@ Fixpoint all_some {A} (l : list (option A)) : option (list A) :=
   | None :: _ => None
   end.
 
-(** numbers printed by the command, when it is "echo" followed by decimal words *)
-Definition echo_numbers (cmd : string) : option (list Z) :=
-  match words cmd with
-  | w :: r => if String.eqb w "echo"%string then all_some (map parse_int r) else None
+(** [None] = ValueError ("string or file could not be read to its end"): some field is not a literal of the element type *)
+Definition parse_stdout (k : ekind) (sep out : string) : option (list num) :=
+  match fields sep out with
+  | [] => None
+  | fs => all_some (map (conv k) fs)
+  end.
+
+(** the requested type: [process_result] None (default handler, float64) or the canonical name of the dtype given as str / np.dtype *)
+Definition kind_of (req : option string) : ekind :=
+  match req with
+  | None => KFloat
+  | Some d => if String.prefix "uint" d then KUInt else if String.prefix "int" d then KInt else KFloat
+  end.
+
+Definition result_dtype (req : option string) : string :=
+  match req with None => "float64"%string | Some d => d end.
+
+Definition num_eqb (a b : num) : bool := (fst a * Zpos (snd b) =? fst b * Zpos (snd a))%Z.
+
+(** ** /bin/sh echo (runtime behaviour, sampled only): what "echo w1 w2 ..." (unquoted words: joined by one space) or
+    "echo '...'" (one single-quoted argument: verbatim) prints *)
+
+Definition NL : string := String (ascii_of_nat 10) EmptyString.
+Definition TAB : string := String (ascii_of_nat 9) EmptyString.
+Definition cat (l : list string) : string := String.concat EmptyString l.
+
+Definition is_quote (a : ascii) : bool := Ascii.eqb a "'"%char.
+
+Definition echo_stdout (cmd : string) : option string :=
+  match ws_fields (chars cmd) [] with
+  | w :: _ =>
+      if String.eqb (str w) "echo"%string then
+        let rest := trim (skipn 4 (drop_ws (chars cmd))) in
+        if existsb is_quote rest then
+          match rest with
+          | q :: r1 =>
+              match rev r1 with
+              | q' :: inner_rev =>
+                  if is_quote q && is_quote q' && negb (existsb is_quote inner_rev)
+                  then Some (String.append (str (rev inner_rev)) NL) else None
+              | [] => None
+              end
+          | [] => None
+          end
+        else Some (String.append (str (join [" "%char] (ws_fields rest []))) NL)
+      else None
   | [] => None
   end.
 
@@ -362,9 +477,16 @@ Record vcase := {
   v_impl_obj : bool               (* the returned array was a 1-d object array *)
 }.
 
+(** what was observed of the stdout handling of one row: the standard output of the command (read by the inspection handler)
+    and the row returned by a second run with the handler under test ([None] = that run raised ValueError, for the whole batch) *)
+Record pout := mkpout {
+  p_stdout : string;
+  p_res : option (string * list num)     (* dtype name of the returned array, its entries *)
+}.
+
 (** observed outcome of one external call *)
 Inductive eobs :=
-| OCmd (cmd : string) (seed : option N) (parsed : option (list Z))   (* executed command, seed kw, parsed stdout *)
+| OCmd (cmd : string) (seed : option N) (parsed : option pout)   (* executed command, seed kw, stdout + parsed stdout *)
 | OIndexError
 | OKeyError (k : string).
 
@@ -377,6 +499,8 @@ Record ecase := {
   e_kw : dict;
   e_meta : option dict;
   e_rs : option (list N);
+  e_sep : string;                 (* the [sep] the standard output is to be split on *)
+  e_req : option string;          (* requested element type: None = default handler, Some d = dtype given as str / np.dtype (canonical name) *)
   e_first_only : bool;            (* a row raised: the batch was aborted, [e_impl] holds that row's exception only *)
   e_impl : option (list eobs)     (* None = ValueError of vectorize; one entry per row *)
 }.
@@ -417,13 +541,42 @@ Definition model_ext (c : ecase) : option (list eresult) :=
     run_vec_ext (e_toks c) (e_inputs c) (e_constants c) (e_batch_size c) (e_kw c) (e_meta c) (e_rs c)
   else Some [run_external (e_toks c) (e_inputs c) (e_kw c) (e_meta c) (e_rs c)].
 
-Definition eres_agree (m : eresult) (o : eobs) : bool :=
+(** the returned row is the parse of the standard output [out]: same split for every requested type, the type decides
+    what a field may look like and the dtype of the result *)
+Definition parse_agree (sep : string) (req : option string) (out : string) (res : option (string * list num)) : bool :=
+  match res with
+  | Some (dt, vals) =>
+      String.eqb dt (result_dtype req)
+      && match parse_stdout (kind_of req) sep out with
+         | Some vs => list_eqb num_eqb vs vals
+         | None => false
+         end
+  | None => true      (* ValueError of the whole batch: see [parse_fail_ok] *)
+  end.
+
+Definition pout_of (o : eobs) : option pout := match o with OCmd _ _ p => p | _ => None end.
+
+(** a ValueError of the run with the default handler is justified by a row whose standard output has a field that is not
+    a literal of the requested type *)
+Definition parse_fail_ok (sep : string) (req : option string) (os : list eobs) : bool :=
+  if existsb (fun o => match pout_of o with Some p => negb (match p_res p with Some _ => true | None => false end) | None => false end) os
+  then existsb (fun o => match pout_of o with
+                         | Some p => match parse_stdout (kind_of req) sep (p_stdout p) with Some _ => false | None => true end
+                         | None => false
+                         end) os
+  else true.
+
+Definition eres_agree (sep : string) (req : option string) (m : eresult) (o : eobs) : bool :=
   match m, o with
   | EOk cmd seed, OCmd cmd' seed' parsed =>
       String.eqb cmd cmd' && opt_eqb N.eqb seed seed'
       && match parsed with
          | None => true
-         | Some zs => opt_eqb (list_eqb Z.eqb) (echo_numbers cmd) (Some zs)    (* sampled runtime part *)
+         | Some p =>                                                        (* sampled runtime part: the shell *)
+             match echo_stdout cmd with
+             | Some out => String.eqb out (p_stdout p) && parse_agree sep req out (p_res p)
+             | None => false
+             end
          end
   | EIndexError _, OIndexError => true
   | EKeyError k, OKeyError k' => String.eqb k k'
@@ -438,10 +591,10 @@ Definition eagree (c : ecase) : bool :=
   | Some ms, Some os =>
       if e_first_only c then
         match find (fun m => negb (is_eok m)) ms, os with
-        | Some m, [o] => eres_agree m o
+        | Some m, [o] => eres_agree (e_sep c) (e_req c) m o
         | _, _ => false
         end
-      else list_eqb eres_agree ms os
+      else list_eqb (eres_agree (e_sep c) (e_req c)) ms os && parse_fail_ok (e_sep c) (e_req c) os
   | _, _ => false
   end.
 
@@ -500,7 +653,7 @@ Definition is_some {A} (o : option A) : bool := match o with Some _ => true | No
 (** the property's statement on the implementation's observations: every row is the per-row
     application (spec calls, independent of the loops), and under the [uses_meta] precondition
     (meta dict present, no explicit index_in_batch keyword) the seeds of the rows differ *)
-Definition eok (c : ecase) : bool :=
+Definition eok_rows (c : ecase) : bool :=
   let cs := consts0 (e_constants c) in
   if e_vectorized c then
     let n := batch_len (e_inputs c) cs (e_batch_size c) in
@@ -532,6 +685,15 @@ Definition eok (c : ecase) : bool :=
         row_ok (e_toks c) (e_inputs c) kw (e_rs c) (sub_index kw) o
     | _ => false
     end.
+
+(** "parses its standard output into an array of the requested type": every returned row is the parse of the standard output
+    that row's command printed *)
+Definition parse_rows_ok (sep : string) (req : option string) (os : list eobs) : bool :=
+  forallb (fun o => match pout_of o with Some p => parse_agree sep req (p_stdout p) (p_res p) | None => true end) os
+  && parse_fail_ok sep req os.
+
+Definition eok (c : ecase) : bool :=
+  eok_rows c && match e_impl c with Some os => parse_rows_ok (e_sep c) (e_req c) os | None => true end.
 
 Definition agree (c : case) : bool := match c with CVec v => vagree v | CExt e => eagree e end.
 Definition ok (c : case) : bool := match c with CVec v => vok v | CExt e => eok e end.
